@@ -34,14 +34,18 @@ Definition FUEL := 400.
 Definition rden (d : nat) (r : res) : option tensor := match r with Ok e => gden true d SNone e | _ => None end.
 Definition rcode (r : res) : nat := match r with Ok _ => 0 | Raise => 1 | NoFuel => 2 end.
 Definition tmat (rows : list (list sx)) : tensor := Mat (map (map sx2t) rows).
-Definition chk (d : nat) (L : gexpr) (M : res) (R : gexpr) (T : option tensor) : list nat :=
-  let dl := gden true d SNone L in
+Definition chkd (d : nat) (dl : option tensor) (M : res) (R : gexpr) (T : option tensor) : list nat :=
   let dr := gden true d SNone R in
   let dm := rden d M in
   [rcode M; cmp dm dr; cmp dr dl; cmp dm dl; match T with Some t => cmp (Some t) dl | None => 9 end;
    match dl with Some _ => 0 | None => 3 end].
-Definition chk_err (d : nat) (L : gexpr) (M : res) : list nat :=
-  [rcode M; 9; 9; 9; 9; match gden true d SNone L with Some _ => 0 | None => 3 end].
+Definition chkd_err (dl : option tensor) (M : res) : list nat :=
+  [rcode M; 9; 9; 9; 9; match dl with Some _ => 0 | None => 3 end].
+Definition chk (d : nat) (L : gexpr) (M : res) (R : gexpr) (T : option tensor) : list nat := chkd d (gden true d SNone L) M R T.
+Definition chk_err (d : nat) (L : gexpr) (M : res) : list nat := chkd_err (gden true d SNone L) M.
+(* the literal meaning of op(E)[i]: component i of the (vector) meaning of op(E) *)
+Definition comp (i : nat) (t : option tensor) : option tensor :=
+  match t with Some (Vec l) => option_map Sc (nth_error l i) | _ => None end.
 """
 
 
@@ -412,9 +416,52 @@ def iface_product_arg(rng, g, op):
     return term
 
 
+def gen_dot_matrix(rng):
+    """Dot with ONE matrix-valued argument, in both orders (matrix . vector and vector . matrix are different products):
+    grad(F), hessian(f), outer(F, G), scaled / summed, against a vector function, a gradient, a scaled vector, a sum"""
+    d = rng.choice([2, 2, 3])
+    f, g, h = [{"k": "sf", "name": n} for n in "fgh"]
+    F, G, H = [{"k": "vf", "name": n} for n in "FGH"]
+    x = {"k": "coord", "i": rng.randrange(d)}
+    alpha = {"k": "const", "name": "alpha"}
+
+    def op(nm, *a):
+        return {"k": "op", "name": nm, "a": list(a)}
+    base = [op("Grad", rng.choice([F, G, H])), op("Hessian", rng.choice([f, g])), op("Outer", F, G), op("Outer", G, G),
+            op("Grad", {"k": "mul", "a": [f, F]}), op("Grad", op("Grad", g))]
+    m = rng.choice(base)
+    c = rng.random()
+    if c < 0.25:
+        m = {"k": "mul", "a": [rng.choice([f, x, num(2), alpha]), m]}
+    elif c < 0.4:
+        m = {"k": "add", "a": [m, rng.choice(base)]}
+    v = rng.choice([F, G, H, op("Grad", rng.choice([f, g, h])), {"k": "mul", "a": [rng.choice([alpha, num(3), g, x]), rng.choice([F, G])]},
+                    {"k": "add", "a": [G, H]}, {"k": "add", "a": [F, op("Grad", h)]}])
+    args = [m, v] if rng.random() < 0.5 else [v, m]
+    return {"dim": d, "op": "Dot", "args": args, "seed": rng.randrange(1 << 30)}
+
+
+def gen_getitem(rng):
+    """the component arm: minus(E)[i], plus(E)[i] (and jump / avg, which are not subscriptable) for vector-valued E"""
+    d = rng.choice([2, 2, 3])
+    f = {"k": "sf", "name": rng.choice("fg")}
+    F, G = {"k": "vf", "name": rng.choice("FG")}, {"k": "vf", "name": "H"}
+    alpha = {"k": "const", "name": "alpha"}
+    E = rng.choice([F, F, F, G, {"k": "add", "a": [F, G]}, {"k": "mul", "a": [rng.choice([alpha, num(2)]), F]},
+                    {"k": "op", "name": "Grad", "a": [f]}, {"k": "mul", "a": [f, F]}])
+    o = rng.choice(["Minus", "Plus", "Minus", "Plus", "Plus", "Jump", "Avg"])
+    i = rng.randrange(d) if rng.random() < 0.85 else rng.choice([d, d + 3])
+    return {"dim": d, "op": o, "args": [E], "getitem": i, "seed": rng.randrange(1 << 30)}
+
+
 def gen_case(rng, tier):
     d = rng.choice([1, 2, 2, 3, 3])
     depth = rng.randint(1, 2 if tier == "quick" else 3)
+    c0 = rng.random()
+    if c0 < 0.06:
+        return gen_dot_matrix(rng)
+    if c0 < 0.10:
+        return gen_getitem(rng)
     if rng.random() < 0.17:
         # interface operators (extension)
         d = rng.choice([1, 2, 3])
@@ -471,6 +518,8 @@ def gen_case(rng, tier):
         args = [v(depth), v(depth)]
         if op == "Cross" and t < 0.08:
             args[1] = copy.deepcopy(args[0])
+        if op == "Dot" and 0.1 < t < 0.35:       # one matrix-valued argument, either side
+            args[rng.randrange(2)] = m(depth)
     return {"dim": d, "op": op, "args": args, "seed": rng.randrange(1 << 30)}
 
 
@@ -587,6 +636,7 @@ def main(run, replay=None):
     t_coq = time.time()
     # ---- Coq: meaning of model result, implementation result and literal, compared by the verified checker
     terms, arms, owners = [], [], []
+    oracle_only = []          # results outside the Coq grammar (a component of an operator application): oracle only
     for ci, (c, r) in enumerate(zip(cases, results)):
         if r is None or "crash" in r or "arg_error" in r or "timeout" in r:
             continue
@@ -596,6 +646,33 @@ def main(run, replay=None):
         L = coq_g({"k": "op", "name": op, "a": ins})
         tbl = coq_list(["(%s, %s)" % (coq_g(gj), coq_str(st)) for gj, st in r.get("strs", [])])
         sgt = "(str_gt_tbl %s)" % tbl
+        if c.get("getitem") is not None:
+            # the component arm: op(E)[i]; the model is given the object the subscript was applied to
+            gi = int(c["getitem"])
+            sj = r.get("self") or {}
+            if sj.get("k") == "op" and sj.get("name") in ("Minus", "Plus"):
+                try:
+                    M = "(mk_getitem %s %s %d)" % (OP1[sj["name"]], coq_g(sj["a"][0]), gi)
+                except ValueError:
+                    M = "Raise"
+            else:
+                M = "Raise"                      # a sum, a product, a jump, an average: not subscriptable
+            DL = "(comp %d (gden true %d SNone %s))" % (gi, d, L)
+            out = r["out"]
+            if "err" in out:
+                if out["err"] == "unsupported-node":
+                    continue
+                terms.append("chkd_err %s %s" % (DL, M))
+            else:
+                try:
+                    R = coq_g(out)
+                except ValueError:
+                    oracle_only.append(ci)
+                    continue
+                terms.append("chkd %d %s %s %s None" % (d, DL, M, R))
+            arms.append(coq_str("getitem"))
+            owners.append(ci)
+            continue
         if op in OP1:
             M = "(mk1 %d %s FUEL %s %s)" % (d, sgt, OP1[op], coq_g(ins[0]))
             A = "(arm1 %d %s %s)" % (d, OP1[op], coq_g(ins[0]))
@@ -670,7 +747,8 @@ def main(run, replay=None):
              "model_refuses": 0, "both_raise": 0, "raise_on_ill_typed": 0, "ill_typed_literal": 0, "argument_build_failed": 0,
              "unsupported_node": 0, "tag_agrees": 0, "tag_mismatch": 0,
              "lowering_proved_equal": 0, "lowering_unavailable": 0, "lowering_disagrees_c01": 0, "lowering_unproved": 0,
-             "typing_disagreement": 0, "coq_case_too_heavy": len(coq_single_failed)}
+             "typing_disagreement": 0, "coq_case_too_heavy": len(coq_single_failed),
+             "component_outside_grammar_oracle_only": len(oracle_only)}
     failing, corr = [], []
     tag_mismatches = []
     typing_samples = []
@@ -698,7 +776,7 @@ def main(run, replay=None):
             stats["unsupported_node"] += 1
             continue
         if v is None:
-            if ci in coq_single_failed:
+            if ci in coq_single_failed or ci in oracle_only:
                 kind = failure_kind(r)
                 if kind:
                     stats["oracle_failures"] += 1
@@ -720,6 +798,14 @@ def main(run, replay=None):
             err_hist[out["err"]] = err_hist.get(out["err"], 0) + 1
             if not orc.get("lit_ok") or not lit_coq:
                 stats["raise_on_ill_typed"] += 1
+                continue
+            if c.get("getitem") is not None and mcode == 1 and out["err"] == "type-error":
+                # op(E)[i] on an object without __getitem__ (a sum, a product, a jump, an average): a refusal by Python
+                # itself, which the model states as well; nothing is returned, so no meaning is changed
+                stats["component_not_subscriptable"] = stats.get("component_not_subscriptable", 0) + 1
+                stats["both_raise"] += 1
+                if tag_ok:
+                    traces += 1
                 continue
             failing.append((ci, "raised", "the constructor raised %s on a well-typed application" % out.get("msg", out["err"])))
             if mcode == 1:
@@ -915,6 +1001,11 @@ def main(run, replay=None):
         "Function spaces of kind 'undefined' only (the space-kind refusals of the constructors are not exercised); constant "
         "vectors (Tuple/Matrix arguments) and Transpose/Trace/matrix products (calculus/matrices.py) are outside the grammar.",
         "Interface operators: a function without restriction and its restrictions to the two sides are independent functions.",
+        "Dot has its real meaning on mixed shapes (matrix.vector, vector.matrix as in core/algebra.py Dot_2d/Dot_3d; grad of a "
+        "vector has entry (i,j) = d_i F_j); matrix.matrix has no meaning (the library reads both matrices as flat vectors).",
+        "Component arm op(E)[i]: inside the Coq grammar for E a vector function (result minus(F[i]) / plus(F[i])); a component of "
+        "an operator application (minus(grad(f))[i]) is outside the grammar and decided by the numeric oracle only; objects "
+        "without __getitem__ (sums, products, jumps, averages) refuse with TypeError, which the model states as Raise.",
         "tequiv=false is 'not proved': such cases are decided by the numeric oracle only and counted as checker_incomplete.",
         "TerminalExpr is only a supplementary witness here (its own defects belong to C01): a disagreement of the real "
         "lowering with the reference while gden(result) ~ gden(literal) is counted, not reported.",
